@@ -29,6 +29,7 @@ Images ==
 Init == img \in Images /\ (RequireAligned => SymbolsAligned(img))
 Next == UNCHANGED img
 ResolutionAdmissible == Resolve(img, T) \in Admissible(img, T)
+PinnedAdmissible == ResolvePinned(img, T) \in Admissible(img, T)
 \* it is found whenever the name starts a string of the table and both tables exist (no silent loss of the vDSO path)
 FoundWhenPresent ==
     (img.shstrndx # 0 /\ FindName(img.dynstr, T, 1) # NotFound /\ (\E k \in 1..Len(img.sections) : img.sections[k].name = DYNSYM)
